@@ -150,7 +150,8 @@ fn main() {
             if args.iter().any(|a| a == "--clean") {
                 p01::CLEAN_ARGS.store(true, std::sync::atomic::Ordering::Relaxed);
             }
-            families!(prop, F => worker::<F>(seed, tier, from, to, trace_idx, digests));
+            let skip: Vec<u64> = arg_val(&args, "--skip").map(|s| s.split(',').filter_map(|x| x.parse().ok()).collect()).unwrap_or_default();
+            families!(prop, F => worker::<F>(seed, tier, from, to, trace_idx, digests, &skip));
             0
         }
         "replay" => {
